@@ -757,7 +757,7 @@ class Magnetization(MagicProperties):
 
     @arrow.setter
     def arrow(self, val):
-        self._arrow = validate_property_class(val, "magnetization", Arrow, self)
+        self._arrow = validate_property_class(val, "arrow", Arrow, self)
 
     @property
     def mode(self):
@@ -1757,7 +1757,7 @@ class CurrentProperties:
 
     @arrow.setter
     def arrow(self, val):
-        self._arrow = validate_property_class(val, "current", Arrow, self)
+        self._arrow = validate_property_class(val, "arrow", Arrow, self)
 
     @property
     def line(self):
